@@ -181,6 +181,13 @@ func panicSite(trace string) string {
 }
 
 func firstLine(s string) string {
+	// the line that says why the process died, not the log noise before it
+	for _, l := range strings.Split(s, "\n") {
+		if strings.HasPrefix(l, "panic:") || strings.HasPrefix(l, "fatal error:") {
+			s = l
+			break
+		}
+	}
 	if i := strings.Index(s, "\n"); i >= 0 {
 		s = s[:i]
 	}
